@@ -7,6 +7,8 @@ def register(reg):
     register_hasher_init(reg)
     register_filehasher(reg)
     register_filehasher_next(reg)
+    register_hasher_v2(reg)
+    register_hasher_hybrid(reg)
     C = reg.contract
 
     C("torrentfile.hasher.merkle_root",
@@ -215,7 +217,7 @@ def register_filehasher_next(reg):
            "implies(" + NL + " < self.amount and len(old(self.layer_hashes)) > 0, len(blocks) == self.amount) and "
            "implies(" + NL + " < self.amount and len(old(self.layer_hashes)) == 0, is_pow2(len(blocks)) and " + NL + " <= len(blocks) < 2 * " + NL + ")"),
           ("C03", "hybrid_v1_piece_is_sha1_of_the_piece_zero_padded_only_when_padding_is_declared",
-           "implies(self.hybrid, result[1] == sha1(D + zeros((self.piece_length - len(D)) if self.pad else 0)) and "
+           "implies(self.hybrid, is_pair(result) and result[1] == sha1(D + zeros((self.piece_length - len(D)) if self.pad else 0)) and "
            "self.pieces == cat(old(self.pieces), [result[1]]) and result[0] == layer_hash) and "
            "implies(not self.hybrid, result == layer_hash)"),
           ("C03", "padding_entry_describes_exactly_the_zero_extension",
@@ -240,3 +242,176 @@ def register_filehasher_next(reg):
                  "modifies": ["block", "piece", "self.current", "self.end"]}},
       notes="one call = one piece: up to piece_length/16 KiB blocks are read, their SHA-256 leaves padded with zero hashes per BEP 52 and "
             "reduced by merkle_root; with L2 the per-piece roots and _calculate_root give the BEP 52 pieces root")
+
+
+HV2 = {"cls": "torrentfile.hasher.HasherV2",
+       "fields": {"path": "str", "piece_length": "int", "layer_hashes": "list[digest]", "piece_layer": "any", "root": "any",
+                  "num_blocks": "int", "progress": "int"}}
+HHY = {"cls": "torrentfile.hasher.HasherHybrid",
+       "fields": {"path": "str", "pad": "bool", "piece_length": "int", "pieces": "list[bytes]", "layer_hashes": "list[digest]",
+                  "piece_layer": "any", "root": "any", "padding_piece": "any", "padding_file": "any", "amount": "int", "progress": "int"}}
+
+S0 = "old(file_tail(fd))"
+
+
+def _calc_root_ensures(amount):
+    return [
+        ("C02", "piece_layer_is_the_concatenation_of_the_layer_hashes_without_padding",
+         "self.piece_layer == bytes_join(old(self.layer_hashes))"),
+        ("C02", "root_over_the_piece_hashes_padded_with_zero_piece_roots",
+         "implies(len(old(self.layer_hashes)) >= 1, self.root == mroot(self.layer_hashes) and "
+         f"self.layer_hashes == cat(old(self.layer_hashes), repeat_digest(mroot(zero_digests({amount})), "
+         "len(self.layer_hashes) - len(old(self.layer_hashes)))))"),
+        ("C02", "padded_to_the_next_power_of_two",
+         "implies(len(old(self.layer_hashes)) >= 1, is_pow2(len(self.layer_hashes)) and "
+         "len(old(self.layer_hashes)) <= len(self.layer_hashes) and "
+         "(len(self.layer_hashes) < 2 * len(old(self.layer_hashes)) or len(old(self.layer_hashes)) == 1 and len(self.layer_hashes) == 1))"),
+    ]
+
+
+def _whole_file_ensures(amount):
+    """postconditions of process_file shared by HasherV2 and HasherHybrid: the whole file is consumed and the piece layer and
+    root are those of its content"""
+    PR = f"piece_roots({S0}, {amount})"
+    return [
+        ("C02", "whole_file_is_hashed", "file_at_eof(fd)"),
+        ("C02", "piece_layer_is_the_bep52_piece_layer_of_the_content", f"self.piece_layer == bytes_join({PR})"),
+        ("C02", "root_is_the_merkle_root_over_the_padded_piece_layer", "self.root == mroot(self.layer_hashes)"),
+        ("C02", "padded_piece_layer_is_the_piece_layer_then_zero_piece_roots",
+         f"self.layer_hashes == cat({PR}, repeat_digest(mroot(zero_digests({amount})), len(self.layer_hashes) - len({PR})))"),
+        ("C02", "padded_to_the_next_power_of_two",
+         f"is_pow2(len(self.layer_hashes)) and len({PR}) <= len(self.layer_hashes) and "
+         f"(len(self.layer_hashes) < 2 * len({PR}) or len(self.layer_hashes) == 1)"),
+    ]
+
+
+def _inner_invariants(idx, amount, extra_frame=""):
+    return [
+        ("stream", f"P + D + file_tail(fd) == {S0}"),
+        ("blocks_are_the_leaves", "blocks == leaves(D)"),
+        ("counters", f"len(blocks) == {idx}"),
+        ("full_blocks_until_eof", f"len(D) == 16384 * {idx} or (len(D) < 16384 * {idx} and file_at_eof(fd))"),
+        ("frame", f"file_open(fd) and self.{amount} == old(self.{amount}) and self.piece_length == old(self.piece_length)" + extra_frame),
+    ]
+
+
+def register_hasher_v2(reg):
+    C = reg.contract
+    C("torrentfile.hasher.HasherV2._calculate_root",
+      props=["C02", "C10"],
+      params={"self": HV2},
+      requires=["self.num_blocks >= 1 and is_pow2(self.num_blocks)"],
+      modifies=["self.piece_layer", "self.layer_hashes", "self.root"],
+      ensures=_calc_root_ensures("self.num_blocks"),
+      loops={0: {"index": "_i0", "modifies": ["self.layer_hashes"],
+                 "lemmas_after_body": ["repeat_step(mroot(zero_digests(self.num_blocks)), _i0 - 1)"],
+                 "invariant": [
+                     ("padding_so_far", "self.layer_hashes == cat(old(self.layer_hashes), repeat_digest(mroot(zero_digests(self.num_blocks)), _i0))"),
+                     ("frame", "self.num_blocks == old(self.num_blocks) and pad_piece == zero_digests(self.num_blocks) and "
+                               "self.piece_layer == bytes_join(old(self.layer_hashes))")]}},
+      notes="with L2 (merkle decomposition, Lean) this is the BEP 52 root over all 16 KiB leaves padded with zero hashes")
+
+    C("torrentfile.hasher.HasherV2.process_file",
+      props=["C02", "C10"],
+      params={"self": HV2, "fd": "file"},
+      merge_ifs=False,
+      shards=6,
+      requires=["self.piece_length >= 16384 and is_pow2(self.piece_length)", "self.num_blocks * 16384 == self.piece_length",
+                "self.num_blocks >= 1 and is_pow2(self.num_blocks)", "file_open(fd)", "len(self.layer_hashes) == 0",
+                "len(file_tail(fd)) > 0"],
+      modifies=["fd", "self.layer_hashes", "self.piece_layer", "self.root"],
+      ensures=_whole_file_ensures("self.num_blocks"),
+      loops={0: {"ghost_init": {"P": "b''", "np": "0"},
+                 "ghost_step": {"P": "P + D", "np": "np + 1"},
+                 "lemmas_after_body": ["proots_step(P, D, len(blocks) - len(leaves(D)), self.num_blocks, np)"],
+                 "modifies": ["fd", "self.layer_hashes"],
+                 "invariant": [
+                     ("stream", f"P + file_tail(fd) == {S0}"),
+                     ("piece_aligned_until_eof", "np >= 0 and (len(P) == np * self.piece_length or file_at_eof(fd))"),
+                     ("layer_hashes_are_the_piece_roots", "self.layer_hashes == piece_roots(P, self.num_blocks)"),
+                     ("frame", "file_open(fd) and self.num_blocks == old(self.num_blocks) and self.piece_length == old(self.piece_length)"),
+                 ]},
+             1: {"index": "_i1",
+                 "ghost_init": {"D": "b''"},
+                 "ghost_step": {"D": "D + last_read()"},
+                 "lemmas_after_body": ["leaves_step(D, last_read())"],
+                 "invariant": _inner_invariants("_i1", "num_blocks") + [
+                     ("outer_state_untouched", "self.layer_hashes == piece_roots(P, self.num_blocks)")],
+                 "modifies": ["leaf", "fd"]}},
+      notes="the whole file, any size: each pass of the outer loop hashes one piece (inner loop: its 16 KiB leaves), pads the leaf "
+            "layer with zero hashes per BEP 52 and reduces it with merkle_root; _calculate_root then pads the piece layer")
+
+
+def register_hasher_hybrid(reg):
+    C = reg.contract
+    C("torrentfile.hasher.HasherHybrid._pad_remaining",
+      props=["C02", "C03", "C10"],
+      params={"self": HHY, "block_count": "int"},
+      requires=["1 <= block_count < self.amount"],
+      returns="list[digest]",
+      ensures=[("C02", "padding_is_zero_hashes", "result == zero_digests(len(result))"),
+               ("C02", "one_piece_file_is_padded_to_the_next_power_of_two",
+                "implies(len(self.layer_hashes) == 0, is_pow2(block_count + len(result)) and block_count + len(result) < 2 * block_count)"),
+               ("C02", "later_short_piece_is_padded_to_a_full_piece",
+                "implies(len(self.layer_hashes) > 0, block_count + len(result) == self.amount)")],
+      notes="same rule as FileHasher._pad_remaining")
+
+    C("torrentfile.hasher.HasherHybrid._calculate_root",
+      props=["C02", "C03", "C10"],
+      params={"self": HHY},
+      requires=["self.amount >= 1 and is_pow2(self.amount)"],
+      modifies=["self.piece_layer", "self.layer_hashes", "self.root"],
+      ensures=_calc_root_ensures("self.amount"),
+      notes="with L2 (merkle decomposition, Lean) this is the BEP 52 root over all 16 KiB leaves padded with zero hashes")
+
+    HP = f"hybrid_pieces({S0}, self.piece_length, self.pad)"
+    C("torrentfile.hasher.HasherHybrid.process_file",
+      props=["C02", "C03", "C10"],
+      params={"self": HHY, "data": "file"},
+      exists={"np": "int"},
+      merge_ifs=False,
+      shards=6,
+      requires=["self.piece_length >= 16384 and is_pow2(self.piece_length)", "self.amount * 16384 == self.piece_length",
+                "self.amount >= 1 and is_pow2(self.amount)", "file_open(data)", "len(self.layer_hashes) == 0", "len(self.pieces) == 0",
+                "len(file_tail(data)) > 0"],
+      modifies=["data", "self.layer_hashes", "self.piece_layer", "self.root", "self.pieces", "self.padding_file"],
+      ensures=[(p_, l_, e_.replace("(fd)", "(data)")) for p_, l_, e_ in _whole_file_ensures("self.amount")] + [
+          ("C03", "v1_pieces_are_sha1_of_each_piece_zero_extended_only_when_padding_is_declared",
+           f"self.pieces == {HP}".replace("(fd)", "(data)")),
+          ("C03", "padding_entry_describes_exactly_the_zero_extension_of_the_last_piece",
+           "with_lemma(mod_witness(len(old(file_tail(data))), self.piece_length, np - 1) and mod_witness(len(old(file_tail(data))), self.piece_length, np), implies(self.pad and len(old(file_tail(data))) % self.piece_length != 0, "
+           "is_dict(self.padding_file) and len(self.padding_file) == 3 and self.padding_file['attr'] == 'p' and "
+           "self.padding_file['length'] == self.piece_length - len(old(file_tail(data))) % self.piece_length))"),
+          ("C03", "no_padding_entry_otherwise",
+           "with_lemma(mod_witness(len(old(file_tail(data))), self.piece_length, np - 1) and mod_witness(len(old(file_tail(data))), self.piece_length, np), implies(not self.pad or len(old(file_tail(data))) % self.piece_length == 0, self.padding_file == old(self.padding_file)))"),
+      ],
+      loops={0: {"ghost_init": {"P": "b''", "np": "0"},
+                 "ghost_step": {"P": "P + D", "np": "np + 1"},
+                 "lemmas_after_body": ["proots_step(P, D, len(blocks) - len(leaves(D)), self.amount, np)",
+                                       "hpieces_step(P, D, self.piece_length, self.pad, np)"],
+                 "modifies": ["data", "self.layer_hashes", "self.pieces", "self.padding_file"],
+                 "invariant": [
+                     ("stream", "P + file_tail(data) == old(file_tail(data))"),
+                     ("piece_aligned_until_eof", "np >= 0 and (len(P) == np * self.piece_length or file_at_eof(data))"),
+                     ("layer_hashes_are_the_piece_roots", "self.layer_hashes == piece_roots(P, self.amount)"),
+                     ("pieces_are_the_v1_pieces", "self.pieces == hybrid_pieces(P, self.piece_length, self.pad)"),
+                     ("padding_entry", "implies(self.pad and len(P) != np * self.piece_length, is_dict(self.padding_file) and "
+                                       "len(self.padding_file) == 3 and self.padding_file['attr'] == 'p' and "
+                                       "self.padding_file['length'] == np * self.piece_length - len(P)) and "
+                                       "implies(not self.pad or len(P) == np * self.piece_length, self.padding_file == old(self.padding_file))"),
+                     ("np_counts_the_pieces", "(np == 0 and len(P) == 0) or (np >= 1 and (np - 1) * self.piece_length < len(P) <= np * self.piece_length)"),
+                     ("frame", "file_open(data) and self.amount == old(self.amount) and self.piece_length == old(self.piece_length) "
+                               "and self.pad == old(self.pad)"),
+                 ]},
+             1: {"index": "_i1",
+                 "ghost_init": {"D": "b''"},
+                 "ghost_step": {"D": "D + last_read()"},
+                 "lemmas_after_body": ["leaves_step(D, last_read())"],
+                 "invariant": [(l_, e_.replace("(fd)", "(data)")) for l_, e_ in _inner_invariants("_i1", "amount", " and self.pad == old(self.pad)")] + [
+                     ("counters2", "plength == self.piece_length - len(D) and total == len(D)"),
+                     ("hybrid_accumulator", "hash_acc(piece) == D"),
+                     ("outer_state_untouched", "self.layer_hashes == piece_roots(P, self.amount) and "
+                                               "self.pieces == hybrid_pieces(P, self.piece_length, self.pad)")],
+                 "modifies": ["block", "data", "piece"]}},
+      notes="whole file, any size: as HasherV2.process_file, plus the v1 piece of each piece (SHA-1 over the piece, zero-extended to a "
+            "full piece exactly when padding is declared) and the padding entry for the short last piece")
